@@ -13,7 +13,9 @@ import (
 	git "github.com/go-git/go-git/v6"
 	"github.com/go-git/go-git/v6/plumbing"
 	"github.com/go-git/go-git/v6/plumbing/cache"
+	"github.com/go-git/go-git/v6/plumbing/format/packfile"
 	"github.com/go-git/go-git/v6/storage/filesystem"
+	"github.com/go-git/go-git/v6/storage/memory"
 	"github.com/go-git/go-git/v6/x/fdpool"
 	"github.com/go-git/go-git/v6/x/verif/vsched"
 
@@ -43,11 +45,17 @@ type c23Event struct {
 	res       string
 }
 
-func runC23(c *fw.Ctx) {
+func runC23(c *fw.Ctx) { c23Run(c, "") }
+
+// c23Run runs the concurrent-read harnesses; with only != "" just the harnesses whose writer is `only`
+// (C18 reuses the same-instance pack-writer harnesses: visibility after a successful write under interleaving).
+func c23Run(c *fw.Ctx, only string) {
 	maxPre := c.Pick(1, 2)
 	c.Bound("max_preemptions", maxPre)
-	c.SetRule("one filesystem.Storage instance (git-built repository: one pack + loose objects, on mcfs) shared by 2-3 reader threads of 1-2 operations from {EncodedObject(packed|loose|absent) with full content read, HasEncodedObject, HashesWithPrefix, Reference, Index}, x pool {default, cap 1} x {lazy, in-memory idx}; optionally a writer thread on a SECOND instance of the same repository {SetEncodedObject(new loose), RepackObjects}; every interleaving at shimmed sync/atomic/singleflight/errgroup operations and filesystem calls within the preemption bound; oracle per execution: every read returns exactly the bytes git stored, or ErrObjectNotFound only for an object that was absent at some instant of the read's call/return interval (a not-found after the write that stored it had returned is a violation); no other error; no deadlock; distinct = (harness, configuration, outcome signature)")
-	c.Assume("cooperative scheduler: data races on plain memory are not observable here (a separate free-running -race pass would be needed and is not part of the verdict); processes are modelled as storage instances sharing mcfs")
+	if only == "" {
+		c.SetRule("one filesystem.Storage instance (git-built repository: one pack + loose objects, on mcfs) shared by 2-3 reader threads of 1-2 operations from {EncodedObject(packed|loose|absent) with full content read, HasEncodedObject, HashesWithPrefix, Reference, Index}, x pool {default, cap 1} x {lazy, in-memory idx}; optionally a writer thread {SetEncodedObject(new loose) or RepackObjects on a SECOND instance of the same repository; a pack write (PackfileWriter) on the SAME instance, racing with the instance's first index load}; every interleaving at shimmed sync/atomic/singleflight/errgroup operations and filesystem calls within the preemption bound; oracle per execution: every read returns exactly the bytes git stored, or ErrObjectNotFound only for an object that was absent at some instant of the read's call/return interval (a not-found after the write that stored it had returned is a violation); no other error; no deadlock; distinct = (harness, configuration, outcome signature)")
+		c.Assume("cooperative scheduler: data races on plain memory are not observable here (a separate free-running -race pass would be needed and is not part of the verdict); processes are modelled as storage instances sharing mcfs")
+	}
 	n, err := mcfs.Conformance(c.Scratch(), 2)
 	c.Must(err, "mcfs/osfs conformance")
 	c.TracesValidated(n)
@@ -71,6 +79,21 @@ func runC23(c *fw.Ctx) {
 	newID := g.MustRunIn(newContent, "hash-object", "--stdin").S()
 	store[newID] = fw.ObjInfo{ID: newID, Type: "blob", Size: len(newContent), Data: newContent}
 	absentID := "00000000000000000000000000000000000000bb"
+	var newPack []byte
+	{
+		ms := memory.NewStorage()
+		o := ms.NewEncodedObject()
+		o.SetType(plumbing.BlobObject)
+		wr, _ := o.Writer()
+		wr.Write(newContent)
+		wr.Close()
+		h, _ := ms.SetEncodedObject(o)
+		var buf bytes.Buffer
+		if _, err := packfile.NewEncoder(&buf, ms, false).Encode([]plumbing.Hash{h}, 10); err != nil {
+			fw.Abort("encode pack: %v", err)
+		}
+		newPack = buf.Bytes()
+	}
 	idOf := map[string]string{"packed": packedID, "loose": looseID, "new": newID, "absent": absentID, "commit": ids[1]}
 	base := mcfs.NewWorld()
 	c.Must(base.Import(dir+"/.git", "/wt/.git"), "import")
@@ -90,6 +113,8 @@ func runC23(c *fw.Ctx) {
 		{readers: [][]c23Op{{get("absent")}, {get("packed")}}},
 		{readers: [][]c23Op{{get("new")}, {{"has", "new"}}}, writer: "loose"},
 		{readers: [][]c23Op{{get("packed")}, {get("loose")}}, writer: "loose"},
+		{readers: [][]c23Op{{{"has", "packed"}}}, writer: "pack(same instance)"},
+		{readers: [][]c23Op{{{"has", "new"}}, {get("loose")}}, writer: "pack(same instance)"},
 		{readers: [][]c23Op{{get("packed")}}, writer: "repack"},
 		{readers: [][]c23Op{{get("loose"), get("packed")}}, writer: "repack"},
 	}
@@ -108,6 +133,9 @@ func runC23(c *fw.Ctx) {
 	}
 	var jobs []job
 	for _, h := range hs {
+		if only != "" && h.writer != only {
+			continue
+		}
 		for _, cf := range cfgs {
 			jobs = append(jobs, job{h, cf})
 		}
@@ -150,6 +178,9 @@ func runC23(c *fw.Ctx) {
 			}
 			if j.h.writer != "" {
 				st2 := filesystem.NewStorageWithOptions(w.View("/wt/.git", "writer"), cache.NewObjectLRUDefault(), filesystem.Options{})
+				if j.h.writer == "pack(same instance)" {
+					st2 = st // the writer shares the readers' instance: its first index load may race with the pack's publication
+				}
 				x.Go("writer", func() any {
 					writeCalled.Store(clock.Add(1))
 					switch j.h.writer {
@@ -160,6 +191,20 @@ func runC23(c *fw.Ctx) {
 						wr.Write(newContent)
 						wr.Close()
 						_, writerErr = st2.SetEncodedObject(o)
+					case "pack(same instance)":
+						// one atomic step: the pack writer talks to a goroutine of its own through atomics,
+						// so the number of scheduling points inside it depends on real timing
+						vsched.Yield("pack write on the shared instance")
+						vsched.Atomic(func() {
+							pw, err := st2.PackfileWriter()
+							if err == nil {
+								_, err = pw.Write(newPack)
+								if cerr := pw.Close(); err == nil {
+									err = cerr
+								}
+							}
+							writerErr = err
+						})
 					case "repack":
 						// one atomic step: the order of filesystem calls inside RepackObjects depends on
 						// Go map iteration (objects are packed in map order), which the explorer cannot own
@@ -189,6 +234,16 @@ func runC23(c *fw.Ctx) {
 				if writerErr != nil {
 					return "writer failed: " + normErr(writerErr)
 				}
+				if j.h.writer == "pack(same instance)" || j.h.writer == "loose" {
+					w.SetHook(nil)
+					inst := st
+					if r := c23Do(inst, c23Op{"has", "new"}, idOf, store); j.h.writer == "pack(same instance)" && r != "ok" {
+						return "after the pack write returned, has(new) on the same instance answers " + r
+					}
+					if r := c23Do(inst, c23Op{"get", "packed"}, idOf, store); r != "ok" {
+						return "after all operations returned, get(packed) on the readers' instance answers " + r
+					}
+				}
 				var sig []string
 				verdict := ""
 				for ti, evs := range events {
@@ -204,7 +259,7 @@ func runC23(c *fw.Ctx) {
 							case "absent":
 							case "new":
 								// acceptable unless the write had returned before this read was called
-								if wr := writeReturned.Load(); j.h.writer == "loose" && wr != 0 && wr < e.call {
+								if wr := writeReturned.Load(); (j.h.writer == "loose" || j.h.writer == "pack(same instance)") && wr != 0 && wr < e.call {
 									verdict = fmt.Sprintf("%s reports not-found although the write that stored the object had already returned", e.op)
 								}
 							default:
